@@ -4,7 +4,7 @@
                | 2 len tag0 nG G.. nD D..            (rf_write_blocks)
                | 3                                   (close)
                | 4 len tag0 nb (G D)*                (C API digital_rf_write_blocks_hdf5 on the raw state)
-               | 5                                   (new session on the same directory: keep files, fresh writer)
+               | 5 newstart                          (new session on the same directory: keep files, fresh writer)
           result = per op  [cls; ret; p_next; p_written; p_gap; w_gi; failed]  then  -7 nfiles
                    then per file  ms tmp seq cap nrows (g o)* ndata data*
    fid 2: create_rf_data_index.  args = start gi chunk cont sw left cap vlen next file_exists nb (G D)*
@@ -56,10 +56,11 @@ Fixpoint run_ops (fuel : nat) (gr : gap_rule) (c : cfg) (ps : pystate) (ops : li
       let '(rc, w') := write_blocks c (p_w ps) (pairs gd) (seqZ tag0 (Z.to_nat len)) in
       let ps' := mkPy (p_next ps) (p_written ps) (p_gap ps) (p_closed ps) w' in
       report rc 0 ps' ++ run_ops fuel' gr c ps' rest1
-    | 5 :: rest =>
+    | 5 :: newstart :: rest =>
       let w := p_w (py_close ps) in
       let ps' := mkPy 0 0 0 false (mkW 0 None false 0 0 (-1) false (w_files w)) in
-      report 0 0 ps' ++ run_ops fuel' gr c ps' rest
+      let c' := mkCfg newstart (c_n c) (c_d c) (c_sc c) (c_fc c) (c_cont c) (c_chunk c) in
+      report 0 0 ps' ++ run_ops fuel' gr c' ps' rest
     | _ => [-96]
     end
   end.
